@@ -3,7 +3,7 @@ import vlib, common
 RULE = ("histories of 1..70 events (quick) / ..200 (thorough), random Add/AddBulk split, random write-cache size; "
         "ALL pairs (i<=j): incremental proof + verification, ALL (index<=version): membership proof + verification; "
         "on a sample of pairs every single-entry alteration, a dropped entry, altered versions (neighbours, 0, n, 2^63, 2^64-1), "
-        "digests of other versions and of a forked log; plus the balloon command: Balloon.QueryConsistency on random (s, e) including the newest version, out-of-range and reversed pairs, answers and verdicts compared with the model. distinct = distinct (kind,n,i,j); non-trivial = audit path with >1 (incr) / >0 (memb) entries clientv: the real client.HTTPClient (MembershipAutoVerify, MembershipDigest+MembershipVerify, IncrementalAutoVerify, Incremental+IncrementalVerify) over JSON against an authentic snapshot store and a server that is honest, answers for other versions/pairs, relabels them, presents the proof of a stored event for a never-added digest sharing its prefix (incl. a 64-byte audit entry), a proof of absence for a present event, tampered fields, or serves a forked log; logs of ~12, ~35 and >1040 events (two-digit heights on the wire); oracle: the published log.")
+        "digests of other versions and of a forked log; plus the balloon command: Balloon.QueryConsistency on random (s, e) including the newest version, out-of-range and reversed pairs, answers and verdicts compared with the model. distinct = distinct (kind,n,i,j); non-trivial = audit path with >1 (incr) / >0 (memb) entries clientv: the real client.HTTPClient (MembershipAutoVerify, MembershipDigest+MembershipVerify, IncrementalAutoVerify, Incremental+IncrementalVerify) over JSON against an authentic snapshot store and a server that is honest, answers for other versions/pairs, relabels them, presents the proof of a stored event for a never-added digest sharing its prefix (incl. a 64-byte audit entry), a proof of absence for a present event, tampered fields, or serves a forked log; logs of ~12, ~35 and >1040 events (two-digit heights on the wire); oracle: the published log. agents (monitor part): the real monitor task on honest, altered and re-gossiped batches against a real node.")
 
 
 def run(v, tier, seed, replay):
